@@ -8,7 +8,7 @@ namespace Petl.Snapshot
 open Petl.Gen
 
 def expectedC05 : List (String × String) := [
-  ("file:comparison.py", "17971f67ee946013"),
+  ("file:comparison.py", "c46d05a1308c92ce"),
   ("file:config.py", "142bde514c82c29d"),
   ("file:transform/basics.py", "ef1ded632cafe787"),
   ("file:transform/sorts.py", "137f7e8a70e043fe"),
